@@ -1121,6 +1121,17 @@ class Algebra:
                     rem.pop(mm, None)
                 else:
                     rem[mm] = v
+            # stop as soon as what is left has a trivially known compatible sign
+            left = dict(stuck)
+            for m, c in rem.items():
+                left[m] = left.get(m, 0) + c
+            left = {m: c for m, c in left.items() if c != 0}
+            rs0 = self._sign_poly(left, 3) if left else "0"
+            if rs0 is not None:
+                if qsign > 0 and rs0 in ("+", ">=0", "0"):
+                    return "+" if ((qstrict and strictF) or rs0 == "+") else ">=0"
+                if qsign < 0 and rs0 in ("-", "<=0", "0"):
+                    return "-" if ((qstrict and strictF) or rs0 == "-") else "<=0"
         if not qsign:
             return None
         for m, c in rem.items():
@@ -1211,10 +1222,20 @@ class Algebra:
             for a, e in m:
                 if self.atoms[a].idem:
                     w = self.atom_rf(self.atoms[a])
+                    wc = self.atoms[a].cond
                     p1 = self._subst_atom_const(p, a, 1)
                     p0 = self._subst_atom_const(p, a, 0)
-                    i1 = self.indicator(RF(self, p1))
-                    i0 = self.indicator(RF(self, p0))
+                    # inside each branch the selecting indicator's own condition is a fact
+                    self.facts_nonneg.append(dict(wc))
+                    try:
+                        i1 = self.indicator(RF(self, p1))
+                    finally:
+                        self.facts_nonneg.pop()
+                    self.facts_nonneg.append({m: -c for m, c in wc.items()})
+                    try:
+                        i0 = self.indicator(RF(self, p0))
+                    finally:
+                        self.facts_nonneg.pop()
                     return self.add(self.mul(w, i1), self.mul(self.sub(self.const(1), w), i0))
         s = self._sign_poly(p)
         if s in ("+", ">=0", "0"):
